@@ -624,4 +624,99 @@ Proof.
   - injection E as <- <- <-. split; [apply LAW0; reflexivity|]. intros HI. split; [discriminate|apply INV0, HI].
   - contradiction.
 Qed.
+Lemma poll_input_peer fuel dest r w p r' w' :
+  pinv (rsp r) -> bytes_ok (remaining w) -> (length (wscript w) + length (remaining w) + 2 <= fuel)%nat ->
+  poll_input maxc fuel dest r w = (p, r', w') ->
+  law [] r w r' w' /\ (inv r w [] -> p <> PBlock /\ inv r' w' []).
+Proof.
+  intros Hinv Hrem Hf E.
+  assert (SAME : law [] r w r w /\ (inv r w [] -> PReady (inl (0, @nil N)) <> @PBlock (N * bytes + N) /\ inv r w [])).
+  { split; [apply law_refl|]. intros HI. split; [discriminate|exact HI]. }
+  assert (EMPTY : stream_buffer (rsp r) = [] -> dest <> Some 0 ->
+    (match poll_output fuel r w with
+     | (PReady (inl _), r1, w1) => input_loop maxc fuel dest [] r1 w1
+     | (PReady (inr k), r1, w1) => (PReady (inr k), r1, w1)
+     | (PWake, r1, w1) => (PWake, r1, w1)
+     | (PBlock, r1, w1) => (PBlock, r1, w1)
+     end) = (p, r', w') ->
+    law [] r w r' w' /\ (inv r w [] -> p <> PBlock /\ inv r' w' [])).
+  { intros Esb Hd0 E1.
+    destruct (poll_output fuel r w) as [[po r1] w1] eqn:EPO.
+    destruct (poll_output_abs _ _ _ _ _ _ EPO Hinv ltac:(lia))
+      as (fl & P1 & P2 & P3 & P4 & P5 & P6 & P7 & P8 & P9 & P10 & P11 & P12).
+    pose proof (same_but_io_remaining _ _ P2) as Prem.
+    assert (Psegs : segs w1 = segs w) by apply P2.
+    assert (PR : forall u, R maxc (abs (rsp r)) ([] ++ u) = fl ++ R maxc (abs (rsp r1)) u).
+    { intros u. cbn [app]. rewrite P5. apply R_split. exact P4. }
+    assert (LAW0 : law [] r w r1 w1).
+    { exists [], fl. split; [rewrite Prem; reflexivity|]. split; [exact P1|]. intros u. apply PR. }
+    assert (INV0 : inv r w [] -> inv r1 w1 []).
+    { intros HI. unfold inv. rewrite P1, Psegs. apply (GW_step _ _ _ _ _ _ PR HI). }
+    destruct po as [[u|k]| |].
+    - pose proof (suffix_length _ _ P3) as Hsl.
+      destruct (input_loop_peer fuel dest [] r1 w1 p r' w' P10 ltac:(rewrite Prem; exact Hrem) ltac:(constructor)
+                  ltac:(rewrite len_nil; lia) ltac:(intros _; rewrite P6; exact Esb) Hd0 ltac:(rewrite Prem; lia) E1) as (LAW2 & INV2).
+      split; [apply (law_trans [] r w r1 w1 [] w1 r' w' LAW0 eq_refl eq_refl LAW2)|].
+      intros HI. apply INV2, INV0, HI.
+    - injection E1 as <- <- <-. split; [exact LAW0|]. intros HI. split; [discriminate|apply INV0, HI].
+    - injection E1 as <- <- <-. split; [exact LAW0|]. intros HI. split; [discriminate|apply INV0, HI].
+    - contradiction. }
+  destruct dest as [[|pc]|].
+  - rewrite poll_input_zero in E. injection E as <- <- <-. exact SAME.
+  - unfold poll_input in E. cbv zeta in E. destruct (stream_buffer (rsp r)) as [|x sb] eqn:Esb.
+    + apply EMPTY; [reflexivity|discriminate|exact E].
+    + cbv beta iota in E. injection E as <- <- <-.
+      set (n := N.min (N.pos pc) (len (x :: sb))).
+      destruct Hinv as [HRI HI0].
+      pose proof (consume_stream_abs (rsp r) n HRI) as CA.
+      assert (CR : forall u, R maxc (abs (rsp r)) ([] ++ u) = R maxc (abs (consume_stream (rsp r) n)) u).
+      { intros u. rewrite CA. symmetry. apply (consume_stream_law maxc (abs (rsp r)) n u). }
+      split.
+      * exists [], []. split; [reflexivity|]. split; [symmetry; apply app_nil_r|]. intros u. cbn [rsp]. apply CR.
+      * intros HI. split; [discriminate|]. unfold inv. cbn [rsp]. apply (GW_step0 _ _ _ _ _ CR HI).
+  - unfold poll_input in E. cbv zeta in E. destruct (stream_buffer (rsp r)) as [|x sb] eqn:Esb.
+    + apply EMPTY; [reflexivity|discriminate|exact E].
+    + cbv beta iota in E. injection E as <- <- <-. exact SAME.
+Qed.
+
+(* poll_fn(|cx| poll_input(cx, dest)).await *)
+Definition ai_peer (r : rstate) (w : world) (x : res ((N * bytes + N) * rstate)) : Prop :=
+  match x with
+  | Ok (_, r') w' => law [] r w r' w' /\ (inv r w [] -> inv r' w' [])
+  | Halt o w' => exists r', law [] r w r' w' /\
+                   (o = ODeadlock -> gated w' /\ R maxc (abs (rsp r')) [] = []) /\
+                   (inv r w [] -> o <> ODeadlock)
+  end.
+
+Theorem await_input_peer : forall fuel dest r w, pinv (rsp r) -> bytes_ok (remaining w) ->
+  ai_peer r w (await_input maxc fuel dest r w).
+Proof.
+  induction fuel as [|f IH]; intros dest r w Hinv Hrem.
+  { cbn [await_input ai_peer]. exists r. split; [apply law_refl|]. split; discriminate. }
+  cbn [await_input].
+  destruct (poll_input maxc (io_fuel w (len (buffer (rsp r)))) dest r w) as [[p r1] w1] eqn:EP.
+  assert (Hfu : (length (wscript w) + length (remaining w) + 2 <= io_fuel w (len (buffer (rsp r))))%nat)
+    by (rewrite io_fuel_remaining; lia).
+  destruct (poll_input_reads maxc _ dest r w p r1 w1 Hinv Hrem Hfu EP) as (dl & A & C & _).
+  destruct (poll_input_peer _ dest r w p r1 w1 Hinv Hrem Hfu EP) as (LAW & INV).
+  assert (RETRY : forall w1', remaining w1' = remaining w1 -> wlog w1' = wlog w1 -> segs w1' = segs w1 ->
+            ai_peer r w (await_input maxc f dest r1 w1')).
+  { intros w1' Q1 Q2 Q3.
+    specialize (IH dest r1 w1' (ac_inv _ _ _ _ _ _ _ A) ltac:(rewrite Q1; apply (acct_bytes_ok _ _ _ _ _ _ _ A Hrem))).
+    assert (INV1 : inv r w [] -> inv r1 w1' []).
+    { intros HI. apply (inv_world r1 w1 w1' [] Q2 Q3). apply (INV HI). }
+    destruct (await_input maxc f dest r1 w1') as [[res r2] w2|o w2]; cbn [ai_peer] in *.
+    - destruct IH as (L2 & I2). split; [|intros HI; apply I2, INV1, HI].
+      apply (law_trans [] r w r1 w1 [] w1' r2 w2 LAW); [rewrite Q1; reflexivity|exact Q2|exact L2].
+    - destruct IH as (r2 & L2 & D2 & I2). exists r2. split; [|split; [exact D2|intros HI; apply I2, INV1, HI]].
+      apply (law_trans [] r w r1 w1 [] w1' r2 w2 LAW); [rewrite Q1; reflexivity|exact Q2|exact L2]. }
+  destruct p as [x| |].
+  - cbn [ai_peer]. split; [exact LAW|]. intros HI. apply (INV HI).
+  - unfold on_wake. cbn [andb]. apply RETRY; reflexivity.
+  - unfold on_block. destruct (negb (stop_at w1 =? 0) && negb (stopped w1)).
+    + apply RETRY; reflexivity.
+    + cbn [ai_peer]. exists r1. split; [exact LAW|]. split.
+      * intros _. cbn [pi_case] in C. destruct C as (_ & _ & _ & _ & C5 & C6). split; assumption.
+      * intros HI. exfalso. apply (proj1 (INV HI)). reflexivity.
+Qed.
 End Peer.
